@@ -112,3 +112,14 @@ Ltac lens_goal :=
 Example unit_discs_at_distance_1 :
   agrees (overlap_code 0 0 1 1 0 1) (1.2283696) (1.2283698).
 Proof. lens_goal. Qed.
+
+(* the exact coincidences of Disc/LensCoincide.v are ordinary goals for [lens_goal]
+   (the atan form is singular at cosine +-1, not at cosine 0): 3-4-5 with the chord through
+   the first centre, and the offset (1,2) with radii 2 and 3 *)
+Example right_angle_3_4_5 :
+  agrees (overlap_code 0 0 3 4 0 5) (18.22469) (18.22470).
+Proof. lens_goal. Qed.
+
+Example right_angle_offset_1_2 :
+  agrees (overlap_code 0 0 2 1 2 3) (8.37859) (8.37860).
+Proof. lens_goal. Qed.
